@@ -144,6 +144,16 @@ REGISTRY = {
                 "Non-trivial: the failing patch has >= 2 file entries or a file with both applying and failing hunks.",
         "floor": floors(("reject-files-verified", 500), ("file-with-applying-and-failing-hunks", 50), ("several-files-rejected", 50), ("reject-legitimately-skipped-(no-directory)", 20)),
     },
+    "C14": {
+        "level_text": "differential over the option lattice: the same workspace pushed with -q and with a random option set; tree, .pc, rejects and exit status compared",
+        "level_note": "trusted: snapshots; stdout/stderr are not compared (the options may change what is printed)",
+        "technique": "runtime monitoring: differential oracle across presentation/loader options",
+        "parts": [K.cli_c14],
+        "rule": "baseline -q vs --mmap / default verbosity / -v / -vv / --color always|never / --stats / -A multiapply and combinations, over random series incl. failing ones, "
+                "zero-length source files, zero-length patch files, empty series, everything already applied, goal naming an applied patch; threads 1/4; backup always/default/never. "
+                "Non-trivial: the run fails or has at least one patch to apply; distinct by (workspace, shape, option set, configuration).",
+        "floor": floors(("shape:empty-source", 50), ("shape:empty-patch", 50), ("shape:empty-series", 50), ("shape:all-applied", 50), ("shape:goal-applied", 50), ("failing-series", 200), ("options:--mmap", 100)),
+    },
     "C15": {
         "level_text": "real pushes under strace on a workspace whose files are hard-linked into a twin tree; inode identity, twin content and every syscall on bystander files are checked",
         "level_note": "trusted: strace decoding; os.link twin",
